@@ -242,8 +242,27 @@ func vf32Compare(st *vfStats, t vfFataler, rec []byte, origin string) (outcome s
 		return "not-describable"
 	}
 	var jspec, rspec ClientHelloSpec
-	jerr := jspec.UnmarshalJSON(doc)
-	rerr := rspec.FromRaw(rec, false, false)
+	var jerr, rerr error
+	// both import routes as the application reaches them: directly, or through a Fingerprinter whose AlwaysAddPadding
+	// option applies to both routes alike (chosen by a bit of the hello, so that the case stays a function of its input)
+	route := "direct"
+	if rec[len(rec)-1]&1 == 1 {
+		route = "fingerprinter(AlwaysAddPadding)"
+		f := &Fingerprinter{AlwaysAddPadding: true}
+		js, e1 := f.UnmarshalJSONClientHello(doc)
+		rs, e2 := f.RawClientHello(rec)
+		jerr, rerr = e1, e2
+		if js != nil {
+			jspec = *js
+		}
+		if rs != nil {
+			rspec = *rs
+		}
+	} else {
+		jerr = jspec.UnmarshalJSON(doc)
+		rerr = rspec.FromRaw(rec, false, false)
+	}
+	st.Class("import-route:" + route)
 	if jerr != nil {
 		es := jerr.Error()
 		if strings.Contains(es, "is not JSON compatible") {
